@@ -32,13 +32,17 @@ def annotation(variant):
         genes.append({"id": "GB", "chr": "chr1", "strand": "+", "transcripts": [{"id": "B1", "exons": [S(3), S(4), S(5)]}]})   # shares exons 3,4 with GA
     if variant >= 2:
         genes.append({"id": "GM", "chr": "chr1", "strand": "-", "transcripts": [{"id": "M1", "exons": [S(1), S(2)]}]})         # antisense sharing exons
+    # loci without any annotated intron: a mono-exonic gene alone, and two overlapping mono-exonic genes on opposite strands
+    genes.append({"id": "GS", "chr": "chr1", "strand": "+", "transcripts": [{"id": "S1", "exons": [[9501, 10100]]}]})
+    genes.append({"id": "GP", "chr": "chr1", "strand": "+", "transcripts": [{"id": "P1", "exons": [[11501, 12000]]}]})
+    genes.append({"id": "GQ", "chr": "chr1", "strand": "-", "transcripts": [{"id": "Q1", "exons": [[11801, 12300]]}]})
     return genes, S
 
 
 def make_world(variant, two_clusters):
     from vlib import syn, worlds as W
     genes, S = annotation(variant)
-    w = {"chroms": {"chr1": 9000, "chr2": 3000}, "genes": genes, "reads": [], "sites": []}
+    w = {"chroms": {"chr1": 14000, "chr2": 3000}, "genes": genes, "reads": [], "sites": []}
     syn.plant_for_transcripts(w)
     reads = []
     n = [0]
@@ -71,6 +75,16 @@ def make_world(variant, two_clusters):
     # mono-exonic reads inside an exon, inside an intron, spanning exon+intron partially
     add([[1000 + 700 + 41, 1000 + 700 + 200]], next(grp))
     add([[1300, 1650]], next(grp))
+    if not two_clusters:
+        # the intron-less loci: reads equal to the exon, a read inside it, a spliced read whose intron jumps over the gene
+        add([[9501, 10100]], next(grp))
+        add([[9501, 10100]], next(grp), polya=True)
+        add([[9651, 9900]], next(grp))
+        add([[9201, 9400], [10201, 10400]], next(grp))
+        add([[11501, 12000]], next(grp))
+        add([[11801, 12300]], next(grp), strand="-")
+        add([[11801, 12300]], next(grp), polya=True, strand="-")
+        add([[11301, 11450], [12351, 12500]], next(grp))
     if two_clusters:
         # a second, disjoint cluster of reads of the same gene (last exons): the gene is loaded for two processing regions
         add([S(4)], next(grp))
